@@ -5,7 +5,9 @@ Driver section of C13.  Case line (see harness/src/c13.rs):
 `<class> <fmt> <q> <m> <d> <w> <h> <inprec> <inhex> <wit> <ok3> <blocks>`.
 For every block of `<blocks>` (the blocks `dds::encode` emitted): mode digits, `Enc13.Portable`, and a hash of
 the 16 pixels decoded at 8 bit by the PROVED decoder models (`Bc.decodeBlock`, `Bc7.decodeBlock`; C03, C03x).
-For single-colour classes additionally the bytes predicted by the discrete encoder model.
+For RGBA8 inputs additionally the bytes predicted by the discrete encoder model (`Enc13.predictBlock`) and, for BC7
+without dithering, the header fields read back from each block with `Enc13.bc7Fields` together with the constraint
+`Enc13.bc7Rule` the discrete rules put on them.
 -/
 namespace Dds.Drv.C13
 open Dds Dds.Drv Dds.Bc Dds.Enc13
@@ -100,6 +102,37 @@ def hex2 (v : Nat) : String :=
 def predString (pieces : List (Nat × List Nat)) : String :=
   ",".intercalate (pieces.map fun p => toString p.1 ++ ":" ++ String.join (p.2.map hex2))
 
+/-- `mode.partition.rotation.selector.pbits.alpha-fields` as `bc7_obs` in harness/src/c13.rs prints it -/
+def obsString (f : Option Bc7Fields) : String :=
+  match f with
+  | none => "8"
+  | some f =>
+    let pb := if f.pbits.isEmpty then "_" else String.join (f.pbits.map toString)
+    let al := if f.alpha.isEmpty then "_" else ",".intercalate (f.alpha.map toString)
+    s!"{f.mode}.{f.part}.{f.rot}.{f.sel}.{pb}.{al}"
+
+/-- `modes.rotations.selector.pbits.alpha`: digits of the admissible modes / rotations, `*` = unconstrained,
+p-bits `1`/`0` = forced, `x` = free, alpha = the unordered pair `lo,hi` -/
+def ruleString (r : Bc7Rule) : String :=
+  let digits (l : List Nat) : String := String.join (l.map toString)
+  let rots := match r.rots with | some l => (if l.isEmpty then "!" else digits l) | none => "*"
+  let sel := match r.sel with | some s => toString s | none => "*"
+  let pb := if r.pbits.isEmpty then "_" else String.join (r.pbits.map fun o => match o with | some v => toString v | none => "x")
+  let al := match r.alpha with | some (lo, hi) => s!"{lo},{hi}" | none => "*"
+  s!"{if r.modes.isEmpty then "!" else digits r.modes}.{rots}.{sel}.{pb}.{al}"
+
+/-- BC2 explicit alpha of a partial block: the nibbles of positions outside the image are blanked on both sides of the
+tie (which pixel the padding repeats is outside the property; `Enc13.blockSrc` still says what the code does) -/
+def maskOutside (f : Option Fmt) (inside : List Bool) (pieces : List (Nat × List Nat)) : List (Nat × List Nat) :=
+  if f = some .bc2 ∨ f = some .bc2p then
+    pieces.map fun pc =>
+      if pc.1 = 0 then
+        (0, (List.range pc.2.length).map fun k =>
+          let v := pc.2.getD k 0
+          (if inside.getD (2 * k) false then v % 16 else 0) + (if inside.getD (2 * k + 1) false then v / 16 * 16 else 0))
+      else pc
+  else pieces
+
 def runC13 (line : String) : String :=
   match toks line with
   | [cls, f, q, m, d, w, h, inprec, inhex, wit, ok3, hex] =>
@@ -125,19 +158,40 @@ def runC13 (line : String) : String :=
       let shapes := String.join ((List.range nb).map fun b => c13Shape fmt (blkOf b))
       let ports := String.join ((List.range nb).map fun b => if Portable fmt (blkOf b) (masks.getD b 0) then "1" else "0")
       let hashes := String.join ((List.range nb).map fun b => hex8 (hashVals (c13Decode fmt (blkOf b))))
-      -- predictions of the discrete encoder model for single-colour rows of RGBA8 blocks
+      -- the 16 RGBA8 pixels of every block as the encoder sees them (`blockSrc` replication at the image border)
+      let wb := (w + 3) / 4
+      let img : Option (Array Nat) := if inprec = "rgba8" then (hexBytes inhex.toList).map (·.toArray) else none
+      let pixels (ia : Array Nat) (b : Nat) : List Px := (List.range 16).map fun p =>
+        let xy := blockSrc w h (b % wb) (b / wb) p
+        let o := (xy.2 * w + xy.1) * 4
+        ⟨ia.getD o 0, ia.getD (o + 1) 0, ia.getD (o + 2) 0, ia.getD (o + 3) 0⟩
+      let inside (b : Nat) : List Bool := (List.range 16).map fun p =>
+        decide ((b % wb) * 4 + p % 4 < w ∧ (b / wb) * 4 + p / 4 < h)
+      let dc := d = "C" ∨ d = "B"
+      let da := d = "A" ∨ d = "B"
+      -- predictions of the discrete encoder model (bytes)
       let pred : String :=
-        if (cls = "grey" ∨ cls = "rand1" ∨ cls = "corner") ∧ inprec = "rgba8" ∧ d = "N" ∧ h = 4 ∧ w = 4 * nb then
-          match hexBytes inhex.toList with
-          | some img =>
-            let ia := img.toArray
-            ";".intercalate ((List.range nb).map fun b =>
-              let o := 16 * b
-              let s := predString (predictSingle fmt qual (ia.getD o 0) (ia.getD (o + 1) 0) (ia.getD (o + 2) 0) (ia.getD (o + 3) 0))
-              if s = "" then "-" else s)
-          | none => "bad"
-        else "-"
-      s!"ok {nb} {shapes} {ports} {hashes} {pred}"
+        match img with
+        | some ia =>
+          ";".intercalate ((List.range nb).map fun b =>
+            let s := predString (maskOutside fmt (inside b) (predictBlock fmt qual dc da (pixels ia b)))
+            if s = "" then "-" else s)
+        | none => "-"
+      -- BC7: header fields read back from the emitted block, and what the discrete rules allow for the input block
+      let b7 : String :=
+        match img with
+        | some ia =>
+          if fmt = none ∧ d = "N" then
+            let fs := (List.range nb).map fun b => bc7Fields (blockNat (blkOf b))
+            let obs := ";".intercalate (fs.map obsString)
+            let rules := ";".intercalate ((List.range nb).map fun b =>
+              match fs.getD b none with
+              | some f => ruleString (bc7Rule qual (pixels ia b) (inside b) f.mode f.part f.rot)
+              | none => ruleString (bc7Rule qual (pixels ia b) (inside b) 8 0 0))
+            obs ++ "@" ++ rules
+          else "-"
+        | none => "-"
+      s!"ok {nb} {shapes} {ports} {hashes} {pred} {b7}"
     | _, _, _, _, _ => "bad-case"
   | _ => "bad-case"
 
